@@ -190,6 +190,27 @@ def r09c(ctx, run):
                     good = cond in ("(num > max_size)", "(*num > max_size)", "(max_size < num)", "(max_size < *num)") and "IntTooBigForType" in canon(ie["t"])
                 run.check(good and bound == "Some(max_size)", f.site(n["ln"]), "%s: literal > max  =>  IntTooBigForType (%s)" % (f.qual, cond),
                           f.qual, "user", f.file, n["ln"], "user of get_max_int_size must reject exactly values > max with IntTooBigForType; found condition %s" % cond)
+                # the type whose range is tested must be the type the literal is actually given: the receiver of
+                # get_max_int_size is the very variable last written into expr_tys for this expression, unchanged in between
+                recv = n["c"]["e"]
+                while recv.get("k") in ("mcall",) and recv["m"] != "get_max_int_size":
+                    recv = recv["r"]
+                rname = canon(recv["r"]) if recv.get("k") == "mcall" else "?"
+                writes = []
+                for x in walk(f.body):
+                    if x.get("k") == "mcall" and x["m"] == "insert" and canon(x["r"]).endswith("expr_tys") and len(x["a"]) == 2 and canon(x["a"][0]) == "expr":
+                        writes.append((x["ln"], canon(x["a"][1])))
+                    if x.get("k") == "assign" and x["l"].get("k") == "index" and canon(x["l"]["e"]).endswith("expr_tys") and canon(x["l"]["i"]) == "expr":
+                        writes.append((x["ln"], canon(x["r"])))
+                before = sorted(w for w in writes if w[0] <= n["ln"])
+                rebinds = [x for x in walk(f.body) if before and before[-1][0] < x.get("ln", 0) <= n["ln"] and (
+                    (x.get("k") == "assign" and canon(x["l"]) == rname) or
+                    (x.get("k") == "local" and any(y.get("k") == "p_ident" and y["n"] == rname for y in walk(x["p"]))))]
+                same = bool(before) and before[-1][1] == rname and not rebinds
+                run.check(same, f.site(n["ln"]), "%s: the range-checked type `%s` is the type just recorded for the literal" % (f.qual, rname),
+                          f.qual, "user-type", f.file, n["ln"],
+                          "the literal is given type `%s` (expr_tys write at line %s) but its range is tested against `%s`: a literal can be accepted at a type "
+                          "it does not fit" % (before[-1][1] if before else "?", before[-1][0] if before else "?", rname))
     if n_users < 2:
         raise LookupError("users of get_max_int_size in globals.rs: %d" % n_users)
 
@@ -248,10 +269,86 @@ def r09d(ctx, run):
         raise LookupError("weak literal widening thresholds in globals.rs (found %d)" % n)
 
 
+def guarded_propagations(fn):
+    """for replace_weak_tys: (arm head, call node, [non-structural guards]) for every recursive propagation call inside the
+    match over the expression kind.  A guard is *structural* when it only tests the presence/shape of a child
+    (`if let Some(x) = child`, `if let hir::Stmt::Break { value: Some(v), .. } = ...`, `match usage`, `for`)."""
+    ms = [m for m in synq.matches_on(fn.body) if canon(m["e"]) == "expr_body"]
+    if len(ms) != 1:
+        raise LookupError("match expr_body in replace_weak_tys (found %d)" % len(ms))
+    out = []
+
+    def visit(n, guards, head):
+        if isinstance(n, list):
+            for x in n:
+                visit(x, guards, head)
+            return
+        if not isinstance(n, dict):
+            return
+        k = n.get("k")
+        if k == "mcall" and n["m"] == fn.name and canon(n["r"]) == "self":
+            out.append((head, n, list(guards)))
+        if k == "closure":
+            return
+        if k == "if":
+            c = n["c"]
+            visit(c, guards, head)
+            structural = c.get("k") == "let" or (c.get("k") == "mcall" and c["m"] == fn.name)
+            g2 = guards if structural else guards + [("if", canon(c)[:60], n["ln"])]
+            visit(n["t"], g2, head)
+            if n.get("e") is not None:
+                visit(n["e"], g2, head)
+            return
+        if k == "match":
+            visit(n["e"], guards, head)
+            for a in n["arms"]:
+                g2 = guards
+                if a.get("g") is not None:
+                    g2 = guards + [("match-guard", canon(a["g"])[:60], a.get("ln", n["ln"]))]
+                visit(a["b"], g2, head)
+            return
+        for key, v in n.items():
+            if key in ("k", "ln", "end"):
+                continue
+            if isinstance(v, (dict, list)):
+                visit(v, guards, head)
+    for h, p, g, b, arm in synq.match_table(ms[0]):
+        guards = []
+        if g is not None:
+            # a guard on the arm itself selects the expression form (e.g. `ty: None`): structural
+            pass
+        visit(b, guards, synq.last_seg(h) if h else canon(p)[:30])
+    return ms[0], out
+
+
+def r09e(ctx, run):
+    """weak-type replacement reaches every value-determining child of a transparent expression form, unconditionally"""
+    f = ctx.syn.fn("GlobalInferenceCtx::replace_weak_tys", "hir_ty/src/globals.rs")
+    m, props = guarded_propagations(f)
+    heads = {}
+    for head, call, guards in props:
+        heads.setdefault(head, []).append((call, guards))
+    want = ("ArrayLiteral", "Paren", "Block", "If", "While", "Switch", "Comptime", "Deref", "Ref", "Binary", "Unary", "Local", "StructLiteral")
+    for h in want:
+        if h not in heads:
+            run.finding(f.qual, "propagate:" + h, f.file, m["ln"], "Expr::%s does not pass the new type on to its sub-expressions: a weakly typed literal inside it keeps "
+                        "its 32-bit default while the enclosing expression is given the wider type" % h)
+            continue
+        for i, (call, guards) in enumerate(heads[h]):
+            desc = "propagate:%s#%d" % (h, i)
+            if guards:
+                run.finding(f.qual, desc, f.file, call["ln"], "Expr::%s: the new type is passed on to `%s` only under the non-structural condition %s: when it is false "
+                            "the sub-expression keeps its weak (32-bit) type while the enclosing expression is recorded at the new type, so the value is computed "
+                            "at the wrong width" % (h, canon(call["a"][0])[:30], ["%s@%s" % (g[1], g[2]) for g in guards]))
+            else:
+                run.ok(f.site(call["ln"]), "Expr::%s passes the new type on to `%s` (only structural presence tests on the way)" % (h, canon(call["a"][0])[:30]))
+
+
 def rules(ctx):
     return [
         Rule("R09.a", "escape tables of string and char literals equal the reference table and each other; default arm rejects", 27, r09a),
         Rule("R09.b", "integer literal lowering uses only checked parsing/arithmetic; every failure reports OutOfRangeIntLiteral", 12, r09b),
-        Rule("R09.c", "get_max_int_size(T) = min(max(T), u64::MAX) for every width; users reject exactly values > max", 15, r09c),
+        Rule("R09.c", "get_max_int_size(T) = min(max(T), u64::MAX) for every width; users reject exactly values > max, tested against the type the literal is given", 17, r09c),
+        Rule("R09.e", "weak-type replacement reaches the literals inside every transparent expression form unconditionally", 18, r09e),
         Rule("R09.d", "weak literal widening thresholds do not exceed the maximum of the type codegen gives weak ints", 6, r09d),
     ]
